@@ -92,16 +92,21 @@ def work(inp):
         return json.dumps({"error": err, "rounds": rounds})
 
     outs = set()
+    complete = True
     try:
         for r, pr, log in EX.runs(once, max_paths=200):
             outs.add(r)
     except (TooManyPaths, rng.ReplayDiverged):
         rng.seed_real(inp.get("seed", 0))
         outs = {once()}
+        complete = False
     res = []
+    gid = json.dumps(inp, sort_keys=True, default=str)
     for o in sorted(outs):
         t = dict(base)
         t.update(json.loads(o))
+        t["_group"] = gid
+        t["_complete"] = complete
         res.append(t)
     return res
 
@@ -207,5 +212,20 @@ def run(tier, seed, replay=None):
     for t in traces:
         if t["error"] or any(rd["tiebreaks"] for rd in t["rounds"]) or any(x[1][0] == 0 for rd in t["rounds"][:1] for x in rd["scores"]):
             res.nontrivial.add(json.dumps([t["cfg"], t["prof0"], t["unscored"]]))
-    judge_calls(res, PID, "RatingTrace", traces, what="score-ballot election disagrees with the statement")
+    verdicts, byid = judge_calls(res, PID, "RatingTrace", traces, what="score-ballot election disagrees with the statement")
+    # spec [= code: over all outcomes of its random draws the code must produce as many different accepted results as the specification allows
+    groups = {}
+    for tid, v in verdicts.items():
+        t = byid[tid]
+        g = groups.setdefault(t["_group"], {"n": 0, "ok": True, "nout": v["final"].get("nout", -1), "complete": t["_complete"], "t": t})
+        g["n"] += 1 if not t["error"] else 0
+        g["ok"] &= not v["final"]["clause"]
+    compared = 0
+    for g in groups.values():
+        if g["complete"] and g["ok"] and g["nout"] >= 0:
+            compared += 1
+            if g["n"] != g["nout"]:
+                res.violation("rating:OutcomeSetSize", "over all outcomes of its random draws the code produces %d different accepted results where the specification allows %d"
+                              % (g["n"], g["nout"]), {"input": g["t"]["_inp"]})
+    res.notes["outcome_sets_compared"] = compared
     return res
